@@ -187,6 +187,9 @@ class GC(FileStorageFormatter):
         self.reachable = ZODB.fsIndex.fsIndex()
         self.reach_ex = {}
 
+        # Objects with records after the pack time (those are all kept).
+        self.written_later = ZODB.fsIndex.fsIndex()
+
         # keep ltid for consistency checks during initial scan
         self.ltid = z64
 
@@ -316,6 +319,7 @@ class GC(FileStorageFormatter):
             while pos < end:
                 dh = self._read_data_header(pos)
                 self.checkData(th, tpos, dh, pos)
+                self.written_later[dh.oid] = pos
 
                 if dh.back and dh.back < self.packpos:
                     if dh.oid in self.reachable:
@@ -577,7 +581,9 @@ class FileStoragePacker(FileStorageFormatter):
                             is_dup = cur.tid == h.tid and (
                                 cur.plen or cur.back)
                         if not is_dup:
-                            if h.oid not in self.gc.reachable:
+                            if (h.oid not in self.gc.reachable and
+                                    h.oid not in self.gc.written_later):
+                                # garbage for good: all its files go
                                 self.blob_removed.write(
                                     binascii.hexlify(h.oid) + b'\n')
                             else:
